@@ -21,13 +21,13 @@ type kind int
 
 const (
 	kUnknown kind = iota
-	kStable        // same on x and any extension y
-	kGrow          // integer, non-decreasing as the header grows
-	kExt           // slice: y's value is an extension of x's (same start)
-	kSOF           // int: stable once found (>= 0), may turn from -1 to >= 0
-	kU             // bool: may turn false -> true
-	kD             // bool: may turn true -> false
-	kTop           // anything
+	kStable       // same on x and any extension y
+	kGrow         // integer, non-decreasing as the header grows
+	kExt          // slice: y's value is an extension of x's (same start)
+	kSOF          // int: stable once found (>= 0), may turn from -1 to >= 0
+	kU            // bool: may turn false -> true
+	kD            // bool: may turn true -> false
+	kTop          // anything
 )
 
 func (k kind) String() string {
@@ -35,16 +35,16 @@ func (k kind) String() string {
 }
 
 type ctx struct {
-	prog   *ssa.Program
-	memo   map[string]fnResult
-	rootDetFns map[*ssa.Function]bool // functions that are detectors of root-level non-text nodes
+	prog           *ssa.Program
+	memo           map[string]fnResult
+	rootDetFns     map[*ssa.Function]bool // functions that are detectors of root-level non-text nodes
 	rootDetGlobals map[*ssa.Global]bool
-	pure   map[*ssa.Function]bool
+	pure           map[*ssa.Function]bool
 }
 
 type fnResult struct {
-	ret  kind // for bool functions: S, U, D or TOP ; for others S if pure function of stable args
-	why  []string
+	ret      kind // for bool functions: S, U, D or TOP ; for others S if pure function of stable args
+	why      []string
 	handover []string
 }
 
@@ -949,7 +949,6 @@ func (c *ctx) isPure(f *ssa.Function) bool {
 	c.pure[f] = ok
 	return ok
 }
-
 
 // Verdict for one detector.
 type Verdict struct {
